@@ -162,14 +162,16 @@ def pairs (nmax : Nat) : List (Nat × Nat) :=
 
 /-! ## Azimuthal factor, normalisation, complete mode -/
 
-/-- `(c + i s)^k` as (real, imaginary) part -/
-def cisPow (c s : Rat) : Nat → Rat × Rat
+/-- `(c + i s)^k` as (real, imaginary) part.  Polymorphic in the scalar (plain notation classes): the
+driver runs it at `Rat`, the theorems of C13 are about the same definition at `Rat` and at `ℝ`
+(`cisPow (cos θ) (sin θ) k = (cos kθ, sin kθ)` for every real `θ`). -/
+def cisPow {K : Type} [Add K] [Sub K] [Mul K] [OfNat K 0] [OfNat K 1] (c s : K) : Nat → K × K
   | 0 => (1, 0)
   | k + 1 => let (a, b) := cisPow c s k; (a * c - b * s, a * s + b * c)
 
 /-- `zernike_azimuthal(m, θ) / (√2 if m ≠ 0)` for `(cos θ, sin θ) = (c, s)`:
-`cos(mθ)` for `m > 0`, `sin(|m|θ)` for `m < 0`, `1` for `m = 0`. -/
-def azimQ (m : Int) (c s : Rat) : Rat :=
+`cos(mθ)` for `m > 0`, `sin(|m|θ)` for `m < 0`, `1` for `m = 0` (same scalar polymorphism as `cisPow`). -/
+def azimQ {K : Type} [Add K] [Sub K] [Mul K] [OfNat K 0] [OfNat K 1] (m : Int) (c s : K) : K :=
   if m = 0 then 1 else if 0 < m then (cisPow c s m.natAbs).1 else (cisPow c s m.natAbs).2
 
 /-- square of the normalisation constant `√(n+1) · (√2 if m ≠ 0)` -/
